@@ -247,12 +247,16 @@ def job_chain_subband(T, n, asc):
 
 
 # ---------------------------------------------------------------- (H) histories on real files
-OPS = ('get_waterfall', 'copy', 'save_load', 'slice', 'dedrift', 'timesel_load', 'edit_inplace', 'failed_save', 'retime')
+OPS = ('get_waterfall', 'copy', 'save_load', 'slice', 'dedrift', 'timesel_load', 'edit_inplace', 'failed_save', 'retime', 'rename')
 
 
 def apply_history(stg, fr, ops, ext, tmp, tag):
+    name = fr.source_name                   # the name the frame should carry at the end (derivations keep it)
     for k, op in enumerate(ops):
-        if op == 'get_waterfall':
+        if op == 'rename':
+            # the source name is re-assigned (an ON / OFF label, say); derived frames and files carry the new one
+            name = fr.source_name = f"{name}_{k}"
+        elif op == 'get_waterfall':
             fr.get_waterfall()
         elif op == 'copy':
             fr = fr.copy()
@@ -286,6 +290,7 @@ def apply_history(stg, fr, ops, ext, tmp, tag):
         elif op == 'dedrift':
             if fr.fchans >= 5 and fr.tchans >= 2:
                 fr = stg.dedrift(fr, fr.df / (fr.tchans * fr.dt) * 1.2 * (1 if k % 2 == 0 else -1))
+    fr._expected_source_name = name
     return fr
 
 
@@ -313,6 +318,8 @@ def check_roundtrip(stg, fr, ext, tmp, tag):
         probs.append(f't_start {g.t_start!r} vs {fr.t_start!r}')
     if g.source_name != fr.source_name:
         probs.append(f'source_name {g.source_name!r} vs {fr.source_name!r}')
+    if getattr(fr, '_expected_source_name', fr.source_name) != fr.source_name:
+        probs.append(f'the frame carries source name {fr.source_name!r} after its history, expected {fr._expected_source_name!r}')
     freqs = wf.container.populate_freqs() * 1e6
     dat = wf.data[:, 0, :]
     order = np.argsort(freqs)
